@@ -546,10 +546,13 @@ func init() {
 
 // ---- generator ------------------------------------------------------------------------------------------
 
+// an IBC voucher: a bank denomination with upper-case letters
+const ibcDenom = "ibc/27394FB092D2ECCD56123C74F36E4C1F926001CEADA9CA97EA622B25F41E5EB2"
+
 func genC17(rng *rand.Rand, seed uint64, tier string) *Script {
 	g := pcGenesis(rng)
 	g.Erc20Native, g.StakingCpc = rng.IntN(2) == 0, rng.IntN(2) == 0
-	g.ExtraDenoms = []string{"utwo", "uthree"}
+	g.ExtraDenoms = []string{"utwo", "uthree", ibcDenom}
 	g.CpcWhitelist = nil
 	if rng.IntN(3) > 0 {
 		g.CpcWhitelist = []int{0}
@@ -563,7 +566,7 @@ func genC17(rng *rand.Rand, seed uint64, tier string) *Script {
 		for i, n := 0, rng.IntN(5); i < n; i++ {
 			switch k := rng.IntN(100); {
 			case k < 30: // deploy attempts: whitelisted or not, good and bad parameters
-				ops = append(ops, Op{K: "msg", W: pick(rng, 0, 0, 1, 2), Mut: "cpc_erc20", Denom: pick(rng, "utwo", "uthree", BaseDenom, "unone", "utwo"),
+				ops = append(ops, Op{K: "msg", W: pick(rng, 0, 0, 1, 2), Mut: "cpc_erc20", Denom: pick(rng, "utwo", "uthree", BaseDenom, "unone", "utwo", ibcDenom, ibcDenom, strings.ToLower(ibcDenom)),
 					Typ: pick(rng, 0, 6, 18, 1), Note: pick(rng, "", "", "Tokx", "ab"), Tip: pick(rng, "", "SYM", "utwo")})
 			case k < 36:
 				ops = append(ops, Op{K: "msg", W: pick(rng, 0, 1), Mut: "cpc_staking"})
